@@ -1,12 +1,534 @@
-//! C04 - not implemented yet
-use crate::common::Report;
+//! C04 - every pseudo-random mask is fresh: no PRF counter reused in compiler output (part A),
+//! no randomising/PRF node turned into a constant, merged or duplicated by the optimiser (part B).
+use super::c01::{self, Prog};
+use crate::common::{catch, hash_str, Report};
+use crate::exec::first_line;
+use crate::mpcx::{self, Owner};
+use crate::vals;
+use ciphercore_base::data_types::{array_type, scalar_type, vector_type, Type, BIT, INT32, INT64, UINT64};
+use ciphercore_base::evaluators::simple_evaluator::SimpleEvaluator;
+use ciphercore_base::graphs::{create_context, Context, Graph, Node, NodeAnnotation, Operation};
+use ciphercore_base::inline::inline_ops::InlineMode;
+use ciphercore_base::mpc::mpc_compiler::{prepare_context, prepare_for_mpc_evaluation, IOStatus};
+use ciphercore_base::optimizer::optimize::optimize_context;
+use rayon::prelude::*;
+use serde_json::{json, Value as J};
+use std::collections::{HashMap, HashSet};
+use std::sync::Arc;
 
-pub fn run(_r: &Report) -> i32 {
-    println!("MACHINERY-ERROR property=C04 check not implemented");
-    2
+fn is_rand_op(op: &Operation) -> bool {
+    op.is_prf_operation() || op.is_randomizing().unwrap_or(false)
 }
 
-pub fn replay(_r: &Report, _rec: &serde_json::Value) -> i32 {
-    println!("MACHINERY-ERROR property=C04 replay not implemented");
-    2
+/// (counter, description) of every PRF-type node of every graph of the context
+fn prf_counters(c: &Context) -> Vec<(u64, String)> {
+    let mut v = vec![];
+    for g in c.get_graphs() {
+        for n in g.get_nodes() {
+            match n.get_operation() {
+                Operation::PRF(iv, t) => v.push((iv, format!("PRF({},{}) g{} n{}", iv, t, g.get_id(), n.get_id()))),
+                Operation::PermutationFromPRF(iv, k) => {
+                    v.push((iv, format!("PermutationFromPRF({},{}) g{} n{}", iv, k, g.get_id(), n.get_id())))
+                }
+                _ => {}
+            }
+        }
+    }
+    v
+}
+
+fn check_counters(c: &Context) -> Result<usize, String> {
+    let v = prf_counters(c);
+    let mut seen: HashMap<u64, String> = HashMap::new();
+    for (iv, d) in v.iter() {
+        if *iv == 0 {
+            return Err(format!("{} keeps the placeholder counter 0", d));
+        }
+        if let Some(o) = seen.insert(*iv, d.clone()) {
+            return Err(format!("{} and {} share a counter", o, d));
+        }
+    }
+    Ok(v.len())
+}
+
+/// keys with >= 2 PRF nodes
+fn keys_with_several_masks(c: &Context) -> usize {
+    let g = c.get_main_graph().unwrap();
+    let mut per_key: HashMap<u64, usize> = HashMap::new();
+    for n in g.get_nodes() {
+        if n.get_operation().is_prf_operation() {
+            *per_key.entry(n.get_node_dependencies()[0].get_id()).or_insert(0) += 1;
+        }
+    }
+    per_key.values().filter(|c| **c >= 2).count()
+}
+
+fn stages(
+    ctx: &Context,
+    owners: &[Owner],
+    outs: &[u8],
+    mode: &InlineMode,
+) -> Result<Vec<(&'static str, Context)>, String> {
+    let ins: Vec<IOStatus> = owners.iter().map(|o| o.status()).collect();
+    let outs: Vec<IOStatus> = outs.iter().map(|i| IOStatus::Party(*i as u64)).collect();
+    let cfg = mpcx::inline_config(mode);
+    let c = ctx.clone();
+    let res = catch(move || -> ciphercore_base::errors::Result<Vec<(&'static str, Context)>> {
+        let p = prepare_context(c, cfg.clone(), SimpleEvaluator::new(Some([7u8; 16]))?, false)?;
+        let m = prepare_for_mpc_evaluation(&p.get_context(), vec![ins], vec![outs], cfg)?;
+        let o = optimize_context(&m.get_context(), SimpleEvaluator::new(Some([7u8; 16]))?)?;
+        Ok(vec![("after-prepare_for_mpc_evaluation", m.get_context()), ("after-optimize", o.get_context())])
+    });
+    match res {
+        Ok(Ok(v)) => Ok(v),
+        Ok(Err(e)) => Err(format!("error: {}", first_line(&e.to_string()))),
+        Err(p) => Err(format!("panic: {}", p)),
+    }
+}
+
+fn mk(desc: &str, class: &str, f: impl Fn(&Context) -> ciphercore_base::errors::Result<Graph> + Send + Sync + 'static) -> Prog {
+    Prog {
+        desc: desc.into(),
+        class: class.into(),
+        build: Arc::new(move || {
+            let go = || -> ciphercore_base::errors::Result<Context> {
+                let c = create_context()?;
+                let g = f(&c)?;
+                g.finalize()?;
+                c.set_main_graph(g)?;
+                c.finalize()?;
+                Ok(c)
+            };
+            match catch(go) {
+                Ok(Ok(c)) => Ok(c),
+                Ok(Err(e)) => Err(e.to_string()),
+                Err(p) => Err(p),
+            }
+        }),
+        owners: None,
+        outs: None,
+        inputs: None,
+        allowed_abort: None,
+    }
+}
+
+/// protocols that draw several masks from one key, and bodies inlined k times
+fn special_programs() -> Vec<Prog> {
+    let mut v = vec![];
+    for k in [1u64, 2, 5, 17] {
+        v.push(mk(&format!("call mul body x{}", k), "Call-inlined", move |c| {
+            let f = c.create_graph()?;
+            let a = f.input(array_type(vec![2], INT32))?;
+            let b = f.input(array_type(vec![2], INT32))?;
+            a.multiply(b)?.set_as_output()?;
+            f.finalize()?;
+            let g = c.create_graph()?;
+            let x = g.input(array_type(vec![2], INT32))?;
+            let y = g.input(array_type(vec![2], INT32))?;
+            let mut acc = x.clone();
+            for _ in 0..k {
+                acc = g.call(f.clone(), vec![acc, y.clone()])?;
+            }
+            acc.set_as_output()?;
+            Ok(g)
+        }));
+        v.push(mk(&format!("iterate mul body len {}", k), "Iterate-inlined", move |c| {
+            let f = c.create_graph()?;
+            let s = f.input(scalar_type(INT32))?;
+            let x = f.input(scalar_type(INT32))?;
+            let ns = s.multiply(x.clone())?;
+            f.create_tuple(vec![ns, s.multiply(s.clone())?])?.set_as_output()?;
+            f.finalize()?;
+            let g = c.create_graph()?;
+            let s0 = g.input(scalar_type(INT32))?;
+            let xs = g.input(vector_type(k, scalar_type(INT32)))?;
+            g.iterate(f, s0, xs)?.set_as_output()?;
+            Ok(g)
+        }));
+    }
+    v.push(mk("mixed multiply (OT)", "MixedMul", |c| {
+        let g = c.create_graph()?;
+        let x = g.input(array_type(vec![2], INT32))?;
+        let b = g.input(array_type(vec![2], BIT))?;
+        x.mixed_multiply(b)?.set_as_output()?;
+        Ok(g)
+    }));
+    for scale in [2u128, 8, 10, 1 << 20] {
+        v.push(mk(&format!("truncate {}", scale), "Truncate", move |c| {
+            let g = c.create_graph()?;
+            let x = g.input(array_type(vec![2], INT64))?;
+            let y = g.input(array_type(vec![2], INT64))?;
+            x.multiply(y)?.truncate(scale)?.truncate(scale)?.set_as_output()?;
+            Ok(g)
+        }));
+    }
+    v.push(mk("a2b then b2a then multiply", "A2B+B2A", |c| {
+        let g = c.create_graph()?;
+        let x = g.input(array_type(vec![2], INT32))?;
+        let y = g.input(array_type(vec![2], INT32))?;
+        let z = x.a2b()?.b2a(INT32)?;
+        z.multiply(y.a2b()?.b2a(INT32)?)?.set_as_output()?;
+        Ok(g)
+    }));
+    v.push(mk("apply private permutation-less: sort 4 rows", "Sort", |c| {
+        let g = c.create_graph()?;
+        let k = g.input(array_type(vec![4, 3], BIT))?;
+        let p = g.input(array_type(vec![4], INT32))?;
+        let t = g.create_named_tuple(vec![("key".to_string(), k), ("v".to_string(), p)])?;
+        g.sort(t, "key".to_string())?.set_as_output()?;
+        Ok(g)
+    }));
+    v
+}
+
+fn part_a(r: &Report) {
+    let thorough = r.tier.thorough();
+    let mut progs = c01::generated_programs(r);
+    if !thorough {
+        progs.retain(|p| p.outs.is_none());
+    }
+    progs.extend(super::curated::programs(thorough));
+    progs.extend(special_programs());
+    let outs_set: Vec<Vec<u8>> = if thorough {
+        mpcx::output_subsets()
+    } else {
+        vec![vec![], vec![0], vec![1, 2]]
+    };
+    let mut tasks: Vec<(usize, Vec<Owner>)> = vec![];
+    for (pi, p) in progs.iter().enumerate() {
+        let n = match (p.build)() {
+            Ok(c) => mpcx::input_types(&c).len(),
+            Err(_) => continue,
+        };
+        r.count("programs", 1);
+        let ovs = if thorough {
+            p.owners.clone().unwrap_or_else(|| mpcx::owner_vectors(n))
+        } else {
+            p.owners.clone().map(|o| o.into_iter().take(4).collect()).unwrap_or_else(|| {
+                let c = c01::covering_owners(n);
+                c.into_iter().take(5).collect()
+            })
+        };
+        for ov in ovs {
+            tasks.push((pi, ov));
+        }
+    }
+    tasks.par_iter().for_each(|(pi, ov)| {
+        let p = &progs[*pi];
+        let ctx = match (p.build)() {
+            Ok(c) => c,
+            Err(_) => return,
+        };
+        let src = serde_json::to_string(&ctx).unwrap();
+        for outs in outs_set.iter() {
+            for (mname, mode) in mpcx::modes() {
+                let st = match stages(&ctx, ov, outs, &mode) {
+                    Ok(s) => s,
+                    Err(_) => {
+                        r.count("compile_rejected", 1);
+                        continue;
+                    }
+                };
+                r.count("evaluations", 1);
+                for (sname, c) in st.iter() {
+                    match check_counters(c) {
+                        Ok(n) => {
+                            r.count("prf_nodes_inspected", n as u64);
+                            if *sname == "after-optimize" {
+                                if n >= 2 {
+                                    r.count("contexts_with_2plus_prf_nodes", 1);
+                                    r.distinct(hash_str(&serde_json::to_string(c).unwrap()));
+                                }
+                                if keys_with_several_masks(c) > 0 {
+                                    r.count("contexts_with_key_used_for_several_masks", 1);
+                                }
+                            }
+                        }
+                        Err(m) => r.violation(
+                            &format!("C04:A:{}:{}", p.class, sname),
+                            &format!("{} | owners {:?} outs {:?} mode {} stage {}: {}", p.desc, ov.iter().map(|o| o.name()).collect::<Vec<_>>(), outs, mname, sname, m),
+                            json!({"part": "A", "context": src, "owners": c01::owners_json(ov), "outs": outs, "mode": mname}),
+                        ),
+                    }
+                }
+                if r.want_sample() && *pi % 97 == 0 {
+                    r.sample(json!({"part": "A", "program": p.desc, "owners": c01::owners_json(ov), "outs": outs, "mode": mname,
+                        "prf_counters_after_optimize": prf_counters(&st[1].1).iter().map(|x| x.0).collect::<Vec<_>>()}));
+                }
+            }
+        }
+    });
+}
+
+// ---------------- part B: the optimiser on generated inlined graphs ----------------
+
+#[derive(Clone, Copy, Debug, PartialEq)]
+enum KeyKind {
+    Random,
+    Input,
+    Constant,
+    SentRandom,
+}
+
+#[derive(Clone, Copy, Debug, PartialEq)]
+enum RNode {
+    Prf(KeyKind, u64),
+    PermPrf(KeyKind, u64),
+    Random,
+    RandomPerm,
+}
+
+#[derive(Clone, Copy, Debug, PartialEq)]
+enum OutExpr {
+    First,
+    Last,
+    SumAll,
+    FirstMinusLast,
+    XPlusFirst,
+    TupleGetFirst,
+    TupleGetLast,
+    FirstTwice,
+    Input,
+}
+
+struct BGraph {
+    ctx: Context,
+    rnodes: Vec<Node>,
+}
+
+fn build_b(rn: &[RNode], oe: OutExpr) -> ciphercore_base::errors::Result<BGraph> {
+    let c = create_context()?;
+    let g = c.create_graph()?;
+    let t = array_type(vec![3], UINT64);
+    let kt = array_type(vec![128], BIT);
+    let x = g.input(t.clone())?;
+    let key_in = g.input(kt.clone())?;
+    let key_rand = g.random(kt.clone())?;
+    let key_const = g.constant(kt.clone(), vals::pattern_value(&kt, &mut || 0x5A))?;
+    let key_sent = g.random(kt.clone())?.nop()?;
+    key_sent.add_annotation(NodeAnnotation::Send(0, 2))?;
+    let key = |k: KeyKind| match k {
+        KeyKind::Random => key_rand.clone(),
+        KeyKind::Input => key_in.clone(),
+        KeyKind::Constant => key_const.clone(),
+        KeyKind::SentRandom => key_sent.clone(),
+    };
+    let mut rnodes = vec![];
+    for r in rn {
+        let n = match r {
+            RNode::Prf(k, iv) => g.add_node(vec![key(*k)], vec![], Operation::PRF(*iv, t.clone()))?,
+            RNode::PermPrf(k, iv) => g.add_node(vec![key(*k)], vec![], Operation::PermutationFromPRF(*iv, 3))?,
+            RNode::Random => g.random(t.clone())?,
+            RNode::RandomPerm => g.random_permutation(3)?,
+        };
+        rnodes.push(n);
+    }
+    let first = rnodes[0].clone();
+    let last = rnodes[rnodes.len() - 1].clone();
+    let out = match oe {
+        OutExpr::First => first,
+        OutExpr::Last => last,
+        OutExpr::SumAll => {
+            let mut acc = x.clone();
+            for n in rnodes.iter() {
+                acc = acc.add(n.clone())?;
+            }
+            acc
+        }
+        OutExpr::FirstMinusLast => first.subtract(last)?,
+        OutExpr::XPlusFirst => x.add(first)?,
+        OutExpr::TupleGetFirst => g.create_tuple(rnodes.clone())?.tuple_get(0)?,
+        OutExpr::TupleGetLast => g.create_tuple(rnodes.clone())?.tuple_get(rnodes.len() as u64 - 1)?,
+        OutExpr::FirstTwice => first.add(first.clone())?.add(first.multiply(x.clone())?)?,
+        OutExpr::Input => x.add(x.clone())?,
+    };
+    out.set_as_output()?;
+    g.finalize()?;
+    c.set_main_graph(g)?;
+    c.finalize()?;
+    Ok(BGraph { ctx: c, rnodes })
+}
+
+/// nodes the output value depends on. A getter applied directly to a tuple constructor depends only on the
+/// selected component (the property allows dropping a randomising node "when nothing that reaches the output
+/// depends on it"; tuple_get(create_tuple(a, b), 0) does not depend on b).
+fn reachable_from_output(g: &Graph) -> HashSet<u64> {
+    let mut seen = HashSet::new();
+    let mut stack = vec![g.get_output_node().unwrap()];
+    while let Some(n) = stack.pop() {
+        if seen.insert(n.get_id()) {
+            if let Operation::TupleGet(i) = n.get_operation() {
+                let d = n.get_node_dependencies()[0].clone();
+                if d.get_operation() == Operation::CreateTuple {
+                    stack.push(d.get_node_dependencies()[i as usize].clone());
+                    continue;
+                }
+            }
+            for d in n.get_node_dependencies() {
+                stack.push(d);
+            }
+        }
+    }
+    seen
+}
+
+fn check_b(rn: &[RNode], oe: OutExpr) -> Result<(bool, bool), (String, String)> {
+    let b = match catch(|| build_b(rn, oe)) {
+        Ok(Ok(b)) => b,
+        _ => return Ok((false, false)), // not accepted by the builder
+    };
+    let ctx = b.ctx.clone();
+    let opt = match catch(move || optimize_context(&ctx, SimpleEvaluator::new(Some([3u8; 16])).unwrap())) {
+        Ok(Ok(o)) => o,
+        Ok(Err(e)) => return Err(("optimize-error".into(), first_line(&e.to_string()))),
+        Err(p) => return Err(("optimize-panic".into(), p)),
+    };
+    let g = b.ctx.get_main_graph().unwrap();
+    let og = opt.get_context().get_main_graph().unwrap();
+    let live = reachable_from_output(&g);
+    // every original randomising / PRF node of the graph (the explicitly generated ones and the key Random nodes)
+    let originals: Vec<Node> = g.get_nodes().into_iter().filter(|n| is_rand_op(&n.get_operation())).collect();
+    let mut images: HashMap<u64, u64> = HashMap::new(); // image id -> original id
+    let mut dropped = false;
+    for n in originals.iter() {
+        let needed = live.contains(&n.get_id());
+        if !opt.mappings.contains_node(n) {
+            if needed {
+                return Err(("needed-node-unmapped".into(), format!("{} (node {}) reaches the output but has no image", n.get_operation(), n.get_id())));
+            }
+            dropped = true;
+            continue;
+        }
+        let im = opt.mappings.get_node(n);
+        if im.get_graph() != og {
+            return Err(("image-in-wrong-graph".into(), format!("{}", n.get_operation())));
+        }
+        // is the image still part of the optimised graph's node list?
+        if needed || true {
+            if im.get_operation() != n.get_operation() {
+                let kind = if matches!(im.get_operation(), Operation::Constant(_, _)) { "turned-into-constant" } else { "operation-changed" };
+                if needed {
+                    return Err((format!("{}:{}", kind, op_name(&n.get_operation())), format!("{} (node {}) maps to {}", n.get_operation(), n.get_id(), im.get_operation())));
+                }
+            }
+        }
+        if let Some(o) = images.insert(im.get_id(), n.get_id()) {
+            if needed && im.get_operation() == n.get_operation() {
+                return Err((format!("merged:{}", op_name(&n.get_operation())), format!("original nodes {} and {} both map to optimised node {} ({})", o, n.get_id(), im.get_id(), im.get_operation())));
+            }
+        }
+    }
+    // no randomising node in the optimised graph without a pre-image, none duplicated
+    let image_ids: HashSet<u64> = images.keys().cloned().collect();
+    for n in og.get_nodes() {
+        if is_rand_op(&n.get_operation()) && !image_ids.contains(&n.get_id()) {
+            return Err((format!("duplicated:{}", op_name(&n.get_operation())), format!("optimised node {} ({}) is not the image of any original node", n.get_id(), n.get_operation())));
+        }
+    }
+    let _ = b.rnodes;
+    Ok((true, dropped))
+}
+
+fn op_name(op: &Operation) -> String {
+    format!("{}", op).split('(').next().unwrap_or("").to_string()
+}
+
+fn part_b(r: &Report) {
+    let keys = [KeyKind::Random, KeyKind::Input, KeyKind::Constant, KeyKind::SentRandom];
+    let mut menu: Vec<RNode> = vec![RNode::Random, RNode::RandomPerm];
+    for k in keys {
+        for iv in [1u64, 2] {
+            menu.push(RNode::Prf(k, iv));
+        }
+        menu.push(RNode::PermPrf(k, 1));
+    }
+    let outs = [
+        OutExpr::First, OutExpr::Last, OutExpr::SumAll, OutExpr::FirstMinusLast, OutExpr::XPlusFirst,
+        OutExpr::TupleGetFirst, OutExpr::TupleGetLast, OutExpr::FirstTwice, OutExpr::Input,
+    ];
+    let max_len = if r.tier.thorough() { 3 } else { 2 };
+    let mut combos: Vec<Vec<RNode>> = vec![];
+    for a in menu.iter() {
+        combos.push(vec![*a]);
+        for b in menu.iter() {
+            combos.push(vec![*a, *b]);
+            if max_len >= 3 {
+                for c in menu.iter() {
+                    combos.push(vec![*a, *b, *c]);
+                }
+            }
+        }
+    }
+    let results: Vec<(usize, usize, Result<(bool, bool), (String, String)>)> = combos
+        .par_iter()
+        .enumerate()
+        .flat_map(|(ci, rn)| {
+            outs.iter().enumerate().map(|(oi, oe)| (ci, oi, check_b(rn, *oe))).collect::<Vec<_>>()
+        })
+        .collect();
+    for (ci, oi, res) in results {
+        r.count("evaluations", 1);
+        match res {
+            Ok((accepted, dropped)) => {
+                if accepted {
+                    r.count("optimizer_graphs", 1);
+                    r.distinct_str(&format!("B{:?}{:?}", combos[ci], outs[oi]));
+                    if dropped {
+                        r.count("optimizer_graphs_with_dropped_random_node", 1);
+                    }
+                    if r.get("optimizer_graphs") % 400 == 1 {
+                        r.sample(json!({"part": "B", "random_nodes": format!("{:?}", combos[ci]), "output": format!("{:?}", outs[oi])}));
+                    }
+                }
+            }
+            Err((kind, msg)) => r.violation(
+                &format!("C04:B:{}", kind),
+                &format!("optimize_context on graph with {:?}, output {:?}: {}", combos[ci], outs[oi], msg),
+                json!({"part": "B", "rnodes": format!("{:?}", combos[ci]), "combo_index": ci, "out_index": oi, "max_len": max_len}),
+            ),
+        }
+    }
+}
+
+pub fn run(r: &Report) -> i32 {
+    part_a(r);
+    part_b(r);
+    r.finish(
+        "exploration",
+        "part A: for every program of the C01 space (depth 1 + curated + protocols drawing several masks from one key: OT, both truncations, A2B/B2A, sort, Call/Iterate bodies inlined 1,2,5,17 times) x owner vectors x output subsets x 3 inline modes, the counters of all PRF/PermutationFromPRF nodes after prepare_for_mpc_evaluation and after the final optimize_context are pairwise distinct and non-zero. part B: every inlined graph with 1..2 (thorough 3) nodes from {Random, RandomPermutation, PRF(key,iv), PermutationFromPRF(key,iv)} with key in {Random, Input, Constant, Random sent through an annotated NOP} x 9 output expressions (using all / some / none of them, through tuples, duplicated uses) is optimised; with the returned mapping every output-relevant original randomising node maps to a node with the identical operation, distinct originals map to distinct nodes, and the optimised graph has no randomising node without pre-image. distinct = distinct optimised contexts with >= 2 PRF nodes (A) and distinct generated graphs (B)",
+        true,
+        &["structural oracle; the semantic effect of optimisation is C06's subject"],
+        &["evaluations", "prf_nodes_inspected", "contexts_with_2plus_prf_nodes", "contexts_with_key_used_for_several_masks", "optimizer_graphs", "optimizer_graphs_with_dropped_random_node"],
+    )
+}
+
+pub fn replay(_r: &Report, rec: &J) -> i32 {
+    let case = &rec["case"];
+    if case["part"] == "A" {
+        let ctx: Context = serde_json::from_str(case["context"].as_str().unwrap()).unwrap();
+        let owners = c01::owners_from_json(&case["owners"]);
+        let outs: Vec<u8> = case["outs"].as_array().unwrap().iter().map(|x| x.as_u64().unwrap() as u8).collect();
+        let mode = mpcx::modes().into_iter().find(|m| m.0 == case["mode"].as_str().unwrap()).unwrap().1;
+        match stages(&ctx, &owners, &outs, &mode) {
+            Ok(st) => {
+                for (s, c) in st {
+                    match check_counters(&c) {
+                        Ok(n) => println!("{}: {} PRF nodes, counters distinct", s, n),
+                        Err(m) => {
+                            println!("{}: {}", s, m);
+                            return 1;
+                        }
+                    }
+                }
+                0
+            }
+            Err(e) => {
+                println!("compile: {}", e);
+                0
+            }
+        }
+    } else {
+        println!("part B case: {} - rerun the check to re-enumerate (combo_index {}, out_index {})", case["rnodes"], case["combo_index"], case["out_index"]);
+        2
+    }
 }
